@@ -448,29 +448,33 @@ where T: CoordinateScalar, U: DataType, V: DataType {
     }
 }
 
-#[kani::proof]
-#[kani::unwind(6)]
-#[kani::stub(Tds::find_cells_containing_vertex_by_key, stub_star)]
-#[kani::stub(Tds::get_vertex_by_key, stub_get_vertex)]
-fn adjacent_cells_contract() {
-    let t = any_tri();
-    let n: usize = kani::any();
-    kani::assume(n <= 2);
-    vk_reset(0, n);
-    let rec: u64 = kani::any();
-    kani::assume(rec <= 2);
-    VK_AUX.store(rec, AOrd::Relaxed);
-    let v = VertexKey::from(KeyData::from_ffi(0x1_0000_0007));
-    let mut count = 0usize;
-    let mut saw1 = false;
-    let mut saw2 = false;
-    for ck in t.adjacent_cells(v) {
-        count += 1;
-        saw1 = saw1 || ck == CellKey::from(KeyData::from_ffi(0x1_0000_0001));
-        saw2 = saw2 || ck == CellKey::from(KeyData::from_ffi(0x1_0000_0002));
-    }
-    assert!(count == n && saw1 == (n >= 1) && saw2 == (n >= 2),
-        "OBL star-is-stored-star: adjacent_cells(v) yields exactly the cells the stored complex lists for v, whatever the vertex's incident-cell hint says");
-    kani::cover!(n == 2 && rec == 1, "COV vertex in cells without incident-cell hint");
-    core::mem::forget(t);
+macro_rules! adjacent_cells_instance {
+    ($name:ident, $n:expr, $rec:expr) => {
+        #[kani::proof]
+        #[kani::unwind(6)]
+        #[kani::stub(Tds::find_cells_containing_vertex_by_key, stub_star)]
+        #[kani::stub(Tds::get_vertex_by_key, stub_get_vertex)]
+        fn $name() {
+            let t = any_tri();
+            let n: usize = $n; // size of the stored star (concrete per instance: hash-set iteration)
+            vk_reset(0, n);
+            VK_AUX.store($rec, AOrd::Relaxed); // vertex record: 0 absent, 1 no incident-cell hint, 2 with hint
+            let v = VertexKey::from(KeyData::from_ffi(0x1_0000_0007));
+            let mut count = 0usize;
+            let mut saw1 = false;
+            let mut saw2 = false;
+            for ck in t.adjacent_cells(v) {
+                count += 1;
+                saw1 = saw1 || ck == CellKey::from(KeyData::from_ffi(0x1_0000_0001));
+                saw2 = saw2 || ck == CellKey::from(KeyData::from_ffi(0x1_0000_0002));
+            }
+            assert!(count == n && saw1 == (n >= 1) && saw2 == (n >= 2),
+                "OBL star-is-stored-star: adjacent_cells(v) yields exactly the cells the stored complex lists for v, whatever the vertex's incident-cell hint says");
+            core::mem::forget(t);
+        }
+    };
 }
+adjacent_cells_instance!(adjacent_cells_n2_nohint, 2, 1);
+adjacent_cells_instance!(adjacent_cells_n2_hint, 2, 2);
+adjacent_cells_instance!(adjacent_cells_n1_nohint, 1, 1);
+adjacent_cells_instance!(adjacent_cells_n0_absent, 0, 0);
